@@ -308,7 +308,7 @@ def distance(s1, s2, only_ub=False, **kwargs):
     length = min(c + 1, abs(r - c) + 2 * (s.window - 1) + 1 + 1 + 1)
     dtw = array.array('d', [inf] * (2 * length))
     sc = 0
-    ec = 0
+    ec = psi_2b
     for i in range(psi_2b + 1):
         dtw[i] = 0
     skip = 0
@@ -326,6 +326,9 @@ def distance(s1, s2, only_ub=False, **kwargs):
             dtw[ii] = inf
         j_start = max(0, i - max(0, r - c) - s.window + 1)
         j_end = min(c, i + max(0, c - r) + s.window)
+        if i <= psi_1b:
+            # rows that can start for free in the first column are scanned from that column
+            sc = 0
         if sc > j_start:
             j_start = sc
         smaller_found = False
@@ -445,12 +448,15 @@ def warping_paths(s1, s2, psi_neg=True, keep_int_repr=False, **kwargs):
         dtw[i, 0] = 0
     i1 = 0
     sc = 0
-    ec = 0
+    ec = psi_2b
     for i in range(r):
         i0 = i
         i1 = i + 1
         j_start = max(0, i - max(0, r - c) - s.window + 1)
         j_end = min(c, i + max(0, c - r) + s.window)
+        if i <= psi_1b:
+            # rows that can start for free in the first column are scanned from that column
+            sc = 0
         if sc > j_start:
             j_start = sc
         smaller_found = False
